@@ -295,6 +295,171 @@ with fia_safe_else (n : nat) (e : list stmt) : bool :=
   end.
 
 (* ---------------------------------------------------------------------------------------------- *)
+(* processing.fix (processing.py:747-765): the one-pass rewrite is iterated max_iter = 5 times; the loop
+   stops early only when the text is back at the ORIGINAL source (`history` is never extended) *)
+Definition fix5 (pass : list stmt -> list stmt) (p : list stmt) : list stmt :=
+  let s1 := pass p in let s2 := pass s1 in let s3 := pass s2 in let s4 := pass s3 in let s5 := pass s4 in
+  if prog_eqb s1 p || prog_eqb s2 p || prog_eqb s3 p || prog_eqb s4 p then p else s5.
+
+(* ---------------------------------------------------------------------------------------------- *)
+(* fixes.swap_if_else (fixes.py:1189-1287) *)
+Definition is_pass (s : stmt) : bool := match s with SPass => true | _ => false end.
+Definition nopass (b : list stmt) : list stmt := filter (fun s => negb (is_pass s)) b.
+
+(* number of If nodes in a subtree (core.walk(node, ast.If) includes the node itself) *)
+Fixpoint count_ifs (s : stmt) : nat :=
+  match s with
+  | SIf _ b e => 1 + list_sum (map count_ifs b) + list_sum (map count_ifs e)
+  | SLoop _ b e => list_sum (map count_ifs b) + list_sum (map count_ifs e)
+  | _ => 0
+  end.
+Definition count_branches (l : list stmt) : nat := 1 + list_sum (map count_ifs l).
+
+Definition starts_with_jump (l : list stmt) : bool :=
+  match l with (SReturn _ | SContinue | SBreak) :: _ => true | _ => false end.
+
+(* _orelse_preferred_as_body *)
+Definition opab (body orelse : list stmt) : bool :=
+  if forallb is_pass body then true
+  else if forallb is_pass orelse then false
+  else
+    let bb := anyb body in let ob := anyb orelse in
+    if bb && negb ob then false
+    else if ob && negb bb then true
+    else if ob && bb && (2 * count_branches orelse <=? count_branches body) then true
+    else starts_with_jump orelse && (3 <? length body).
+
+(* _swap_explicit_if_else, one pass: outermost sites first (ast.walk is breadth-first, an inner rewrite
+   overlapping a scheduled outer one is dropped until the next pass); elif nodes are skipped *)
+Definition swap_site (b e : list stmt) : bool :=
+  match e with
+  | [] => false
+  | _ => negb (anyb b && negb (anyb e)) && opab b e
+  end.
+Fixpoint sw (n : nat) (p : list stmt) : list stmt :=
+  match n with
+  | O => p
+  | S n' =>
+      map (fun s =>
+        match s with
+        | SIf t b e => if swap_site b e then SIf (negate t) e (nopass b)
+                       else SIf t (sw n' b) (sw_else n' e)
+        | SLoop h b e => SLoop h (sw n' b) (sw n' e)
+        | _ => s
+        end) p
+  end
+with sw_else (n : nat) (e : list stmt) : list stmt :=
+  match n with
+  | O => e
+  | S n' =>
+      match e with
+      | [SIf t2 b2 e2] => [SIf t2 (sw n' b2) (sw_else n' e2)]
+      | _ => sw n' e
+      end
+  end.
+Definition swap_explicit (p : list stmt) : list stmt := fix5 (fun q => sw (fuel_of q) q) p.
+
+(* _swap_implicit_if_else: `if t: B` (B blocking, no else) followed by the rest R of its block, R blocking
+   too and preferred as body: becomes `if not t: R else: B`.  Only the first passing candidate is
+   rewritten (the correspondence domain has at most one). *)
+Definition implicit_site (s : stmt) (rest : list stmt) : option (list stmt) :=
+  match s, rest with
+  | SIf t b [], _ :: _ =>
+      if anyb b && anyb rest && opab b rest then Some [SIf (negate t) rest (nopass b)] else None
+  | _, _ => None
+  end.
+Fixpoint swi (n : nat) (p : list stmt) : option (list stmt) :=
+  match n with
+  | O => None
+  | S n' =>
+      match p with
+      | [] => None
+      | s :: rest =>
+          match implicit_site s rest with
+          | Some q => Some q
+          | None =>
+              let inside :=
+                match s with
+                | SIf t b e =>
+                    match swi n' b with
+                    | Some b' => Some (SIf t b' e)
+                    | None => option_map (fun e' => SIf t b e') (swi n' e)
+                    end
+                | SLoop h b e =>
+                    match swi n' b with
+                    | Some b' => Some (SLoop h b' e)
+                    | None => option_map (fun e' => SLoop h b e') (swi n' e)
+                    end
+                | _ => None
+                end in
+              match inside with
+              | Some s' => Some (s' :: rest)
+              | None => option_map (cons s) (swi n' rest)
+              end
+          end
+      end
+  end.
+Definition swap_if_else_model (p : list stmt) : list stmt :=
+  match swi (fuel_of p) p with
+  | Some q => swap_explicit (swap_explicit q)
+  | None => swap_explicit p
+  end.
+
+(* ---------------------------------------------------------------------------------------------- *)
+(* fixes.delete_unreachable_code (fixes.py:876-922, after repairs d6620b5, c9f0b78).
+   - in the body of every node that is not an If/While (the function, for loops): everything after the first
+     blocking statement is deleted ([duc_scan]); bodies of If/While and all else blocks are not scanned;
+   - `if <literal>`: the dead branch is emptied (an `elif` clause in a dead else is removed), an `if` with a
+     falsy literal test and no else is deleted; `while <falsy literal>` likewise.
+   Fixpoint of the passes. *)
+Fixpoint duc_scan (n : nat) (p : list stmt) : list stmt :=
+  match n with
+  | O => p
+  | S n' =>
+      match p with
+      | [] => []
+      | s :: rest => let s' := duc_stmt n' s in s' ++ (if anyb s' then [] else duc_scan n' rest)
+      end
+  end
+with duc_plain (n : nat) (p : list stmt) : list stmt :=
+  match n with
+  | O => p
+  | S n' => flat_map (duc_stmt n') p
+  end
+with duc_stmt (n : nat) (s : stmt) : list stmt :=
+  match n with
+  | O => [s]
+  | S n' =>
+      match s with
+      | SIf t b e =>
+          match tval t with
+          | Some true =>
+              [SIf t (fixb (duc_plain n' b)) (match e with [] => [] | _ => if is_elif e then [] else [SPass] end)]
+          | Some false =>
+              match duc_else n' e with
+              | [] => []                     (* no else (left): the node is deleted *)
+              | e' => [SIf t [SPass] e']
+              end
+          | None => [SIf t (fixb (duc_plain n' b)) (duc_else n' e)]
+          end
+      | SLoop (HWhile t) b e =>
+          match tval t, e with
+          | Some false, [] => []
+          | Some false, _ => [SLoop (HWhile t) [SPass] (fixe e (duc_plain n' e))]
+          | _, _ => [SLoop (HWhile t) (fixb (duc_plain n' b)) (fixe e (duc_plain n' e))]
+          end
+      | SLoop (HFor it) b e => [SLoop (HFor it) (fixb (duc_scan n' b)) (fixe e (duc_plain n' e))]
+      | _ => [s]
+      end
+  end
+with duc_else (n : nat) (e : list stmt) : list stmt :=
+  match n with
+  | O => e
+  | S n' => if is_elif e then duc_plain n' e else fixe e (duc_plain n' e)
+  end.
+Definition delete_unreachable_code_model (p : list stmt) : list stmt := fixb (duc_scan (2 * fuel_of p) p).
+
+(* ---------------------------------------------------------------------------------------------- *)
 (* correspondence plumbing: (rule number, input program, expected output of the real rule) *)
 Definition apply_rule (k : nat) (p : list stmt) : list stmt :=
   match k with
@@ -302,6 +467,8 @@ Definition apply_rule (k : nat) (p : list stmt) : list stmt :=
   | 1 => remove_redundant_else_model p
   | 2 => fix_if_return_model p
   | 3 => fix_if_assign_model p
+  | 4 => swap_if_else_model p
+  | 5 => delete_unreachable_code_model p
   | _ => p
   end.
 (* expected = None: the real rule left the program unchanged *)
